@@ -33,7 +33,7 @@ def check(run):
     run.trusted = c05.TRUSTED + ["vt/gen/c06_api.py (Python ast): which attribute reads count as obligations (Load/Del on non-module "
                                  "receivers; getattr/hasattr with literal names are guarded reads and are not), which sources define names",
                                  "the fixed allow-list of builtin-type attributes in vt/gen/c06_api.py",
-                                 "SIGALRM-based time limit (5 s quick / 10 s thorough per pass) as the meaning of 'bounded time'"]
+                                 "CPU-time limit (ITIMER_VIRTUAL; 5 s quick / 10 s thorough per pass call) as the meaning of 'bounded time'"]
     run.assumptions = ["name-based attribute check: a name defined by ANY node class / mixin counts as defined for every receiver",
                        "C06_breaking_returns_terminates is parametric in the candidate computation (first/last leaf, next/previous): "
                        "its hypothesis (a BreakingReturn candidate is an attached node of the document) is not derived from a model of "
